@@ -1302,6 +1302,80 @@ pub fn exec_mod(w: &mut World, op: &Op, rest: &str, env: &mut Env) {
             w.u[dst] = z.residue();
             env.res(Pool::U, dst);
         }
+        "udr" | "idr" => {
+            // quotient and remainder by a ConstDivisor: every operator / trait form against the plain big-integer ones
+            let d = if op.lit.is_empty() { w.u[a].clone() } else { UBig::from_le_bytes(&op.lit) };
+            if d.is_zero() {
+                return env.skip();
+            }
+            let low = &w.u[b] & UBig::from(u64::MAX);
+            let bits = d.bit_len();
+            // dividend: as is / high part equal to the divisor / high part all ones / maximal remainder
+            let x: UBig = match op.n.unsigned_abs() % 4 {
+                0 => w.u[b].clone(),
+                1 => (d.clone() << 64) + low,
+                2 => (UBig::ones(bits.max(1)) << 64) + low,
+                _ => {
+                    if w.u[b].bit_len() > 4000 {
+                        return env.skip();
+                    }
+                    &d * &w.u[b] + (&d - UBig::ONE)
+                }
+            };
+            let ring = ConstDivisor::new(d.clone());
+            let f = op.form & 255;
+            if rest == "udr" {
+                let (q, r): (UBig, UBig) = match f % 8 {
+                    0 => (x.clone() / &ring, x.clone() % &ring),
+                    1 => (&x / &ring, &x % &ring),
+                    2 => {
+                        let (mut q, mut r) = (x.clone(), x.clone());
+                        q /= &ring;
+                        r %= &ring;
+                        (q, r)
+                    }
+                    3 => x.clone().div_rem(&ring),
+                    4 => (&x).div_rem(&ring),
+                    5 => {
+                        let mut q = x.clone();
+                        let r = q.div_rem_assign(&ring);
+                        (q, r)
+                    }
+                    6 => (&x / &d, &x % &d),
+                    _ => (&x / &d, ring.reduce(x.clone()).residue()),
+                };
+                w.u[dst] = q;
+                w.u[(dst + 1) % NP] = r;
+                env.res(Pool::U, dst);
+                env.res(Pool::U, (dst + 1) % NP);
+            } else {
+                let y = IBig::from_parts(w.i[c].sign(), x);
+                let di = IBig::from(d.clone());
+                let (q, r): (IBig, IBig) = match f % 8 {
+                    0 => (y.clone() / &ring, y.clone() % &ring),
+                    1 => (&y / &ring, &y % &ring),
+                    2 => {
+                        let (mut q, mut r) = (y.clone(), y.clone());
+                        q /= &ring;
+                        r %= &ring;
+                        (q, r)
+                    }
+                    3 => y.clone().div_rem(&ring),
+                    4 => (&y).div_rem(&ring),
+                    5 => {
+                        let mut q = y.clone();
+                        let r = q.div_rem_assign(&ring);
+                        (q, r)
+                    }
+                    6 => (&y / &di, &y % &di),
+                    _ => y.clone().div_rem(&di),
+                };
+                w.i[dst] = q;
+                w.i[(dst + 1) % NP] = r;
+                env.res(Pool::I, dst);
+                env.res(Pool::I, (dst + 1) % NP);
+            }
+        }
         "divisor" => {
             // ConstDivisor as a fast divisor
             let ring = ConstDivisor::new(w.u[a].clone());
